@@ -226,7 +226,7 @@ type bnode struct {
 	nontriv bool
 }
 
-func outcome(u *pool.Universe, ref *pool.Ref, op pool.Op, obs pool.Obs, npendBefore int) string {
+func outcome(op pool.Op, obs pool.Obs, npendBefore int) string {
 	switch op.Kind {
 	case "add":
 		if obs.OK {
@@ -269,6 +269,11 @@ func bfs(c *fw.Ctx, env *pool.Env, gen pool.Gen, depth, shardAt int) {
 	}
 	frontier := []bnode{root}
 	perDepth := map[string]int64{}
+	defer func() {
+		for k, v := range perDepth {
+			c.Count(k, v)
+		}
+	}()
 	label := ""
 	if i := strings.Index(u.Name, "@"); i > 0 {
 		label = "_height" + u.Name[i+1:]
@@ -315,7 +320,7 @@ func bfs(c *fw.Ctx, env *pool.Env, gen pool.Gen, depth, shardAt int) {
 					if nt {
 						c.NontrivialN(1)
 					}
-					c.Outcome(outcome(u, ref, op, obs, npend))
+					c.Outcome(outcome(op, obs, npend))
 					perDepth[fmt.Sprintf("histories_len_%d%s", lvl+1, label)]++
 				}
 				if len(fs) > 0 {
@@ -340,9 +345,6 @@ func bfs(c *fw.Ctx, env *pool.Env, gen pool.Gen, depth, shardAt int) {
 			}
 		}
 		frontier = next
-	}
-	for k, v := range perDepth {
-		c.Count(k, v)
 	}
 }
 
